@@ -1014,6 +1014,7 @@ package go9p
 //@   at call(fmt.Sprintf) ensures len(ret) <= 65535
 // whatever the text, what is handed to Respond is a packed Rerror (a text that does not fit is cut)
 //@   at call((*SrvReq).Respond) requires [C03 C06 C12 packed] !deref(Akaros) && len(req.Rc.Buf) >= 22 ==> req.Rc.Type == 107 && len(req.Rc.Pkt) >= 9 && len(req.Rc.Pkt) <= len(req.Rc.Buf) && u8(req.Rc.Pkt, 4) == 107
+//@   at call((*SrvReq).Respond) requires [C12 dialect] !deref(Akaros) && len(req.Rc.Buf) >= 22 ==> len(req.Rc.Pkt) == 9 + len(req.Rc.Error) + ite(req.Conn.Dotu, 4, 0)
 //@   assigns  everything
 
 //@ func (*SrvReq).Respond(req)
@@ -1234,7 +1235,8 @@ package go9p
 //@ func (*Clnt).Rpc(clnt, tc) (rc, err)
 //@   property C09 C14
 //@   nobody
-//@   trusted the reply delivered to a call is a decoded Fcall (proved separately for recv: C09); request/reply matching is not re-proved here
+//@   trusted the reply delivered to a call is a decoded Fcall (proved separately for recv: C09); request/reply matching is not re-proved here; existing string slices (walk names) are only read
+//@   opt preserve E.string
 //@   requires clnt != nil && tc != nil
 //@   ensures  err == nil ==> rc != nil
 //@   ensures  errwf(err)
@@ -1408,7 +1410,7 @@ package go9p
 //@   property C18 C17 C06
 //@   requires ufsreq(req)
 //@   at call(os.OpenFile) requires [confined] confined(arg0) && arg0 == old(upath(req))
-//@   at call(os.OpenFile) requires [flags] arg1 == ite(old(req.Tc.Mode) & 3 == 1, os.O_WRONLY, ite(old(req.Tc.Mode) & 3 == 2, os.O_RDWR, os.O_RDONLY)) + ite(old(req.Tc.Mode) & 16 != 0, os.O_TRUNC, 0)
+//@   at call(os.OpenFile) requires [C17 C14 flags] arg1 == ite(old(req.Tc.Mode) & 3 == 1, os.O_WRONLY, ite(old(req.Tc.Mode) & 3 == 2, os.O_RDWR, os.O_RDONLY)) + ite(old(req.Tc.Mode) & 16 != 0, os.O_TRUNC, 0)
 
 //@ func (*Ufs).Remove(ufs, req)
 //@   property C18 C17 C06
@@ -1417,6 +1419,7 @@ package go9p
 //@   at call(os.Remove) ghost nrm := nrm + 1
 //@   at call(os.Remove) requires [confined] confined(arg0) && arg0 == old(upath(req))
 //@   at call((*SrvReq).RespondRremove) requires [removed] nrm == 1
+//@   at call((*SrvReq).RespondError)#2 requires [C17 posixerror] nrm == 1
 //@   ensures  nrm <= 1
 
 //@ func dir2Dir(path, d, dotu, upool) (st, err)
@@ -1457,6 +1460,12 @@ package go9p
 //@   at call(os.OpenFile)#1 requires [flags] arg1 == uflags(old(req.Tc.Mode)) + os.O_CREATE && old(req.Tc.Perm) & 2147483648 == 0
 //@   at call(os.OpenFile)#2 requires [flags] arg1 == uflags(req.Tc.Mode)
 //@   at call((*SrvReq).RespondRcreate) requires [moved] fid.path == cat(cat(old(upath(req)), "/"), old(req.Tc.Name)) && confined(fid.path)
+//@   ghost nmut int = 0
+//@   at call(os.Mkdir) ghost nmut := nmut + 1
+//@   at call(os.Symlink) ghost nmut := nmut + 1
+//@   at call(os.Link) ghost nmut := nmut + 1
+//@   at call(os.OpenFile)#1 ghost nmut := nmut + 1
+//@   at call((*SrvReq).RespondRcreate) requires [C17 onemutator] nmut == 1 || (nmut == 0 && old(req.Tc.Perm) & 2097152 != 0)
 
 // directory snapshot kept in a ufsFid: ends are the running totals of the packed entries
 //@ pure snapok(f) = (forall k int :: 0 <= k && k < len(f.direntends) ==> 0 < f.direntends[k] && f.direntends[k] <= len(f.dirents))
@@ -1490,6 +1499,10 @@ package go9p
 //@   requires snapok(ival(req.Fid.Aux, "*ufsFid")) && snaprecs(ival(req.Fid.Aux, "*ufsFid"))
 //@   requires obj(ival(req.Fid.Aux, "*ufsFid").dirents) != obj(req.Rc.Buf)
 //@   at call(os.OpenFile) requires [confined] confined(arg0)
+//@   ghost nclosed int = 0
+//@   at call((*os.File).Close) ghost nclosed := nclosed + 1
+//@   at call((*os.File).Close) requires [C11 oldhandle] arg0 == old(ival(req.Fid.Aux, "*ufsFid").file)
+//@   at call(os.OpenFile) requires [C11 closedfirst] nclosed == 1
 //@   ghost nreadat int = 0
 //@   ghost nstat int = 0
 //@   at call((*ufsFid).stat) ghost nstat := nstat + 1
@@ -1545,6 +1558,9 @@ package go9p
 //@   at call(os.Truncate) requires [args] confined(arg0) && old(req.Tc.Dir.Length) != 18446744073709551615 && arg1 == wrap64s(old(req.Tc.Dir.Length))
 //@   at call(os.Truncate) requires [target] arg0 == ite(renamed, dest, old(upath(req)))
 //@   at call(os.Stat) requires [confined] confined(arg0) && arg0 == ite(renamed, dest, old(upath(req)))
+//@   ghost nst int = 0
+//@   at call(os.Stat) ghost nst := nst + 1
+//@   at call(os.Chtimes) requires [C17 freshtimes] old(req.Tc.Dir.Mtime) == 4294967295 || old(req.Tc.Dir.Atime) == 4294967295 ==> nst == 1
 //@   at call(os.Chtimes) requires [args] confined(arg0) && arg0 == ite(renamed, dest, old(upath(req)))
 //@   at call((*SrvReq).RespondRwstat) requires [moved] renamed ==> fid.path == dest
 //@   at call(os.Stat) ensures ret1 == nil ==> ret0 != nil
@@ -1645,8 +1661,10 @@ package go9p
 //@   at call(Unpack) requires [gate] 4 < pos && u32le(buf, 0) <= conn.Msize && u32le(buf, 0) <= pos && pos <= len(buf)
 //@   at call(Unpack) requires [stream] unread(conn, buf, pos, rd)
 //@   at call(Unpack) requires [aligned] rd - pos == fstart(instream(conn), nf)
+//@   at call(Unpack) requires [C13 C12 dialect] arg1 == conn.Dotu
 //@   at call(Unpack) after nf := nf + 1
 //@   at call((*SrvReq).process) requires [C08 synconly] arg0.Tc.Type == 100
+//@   at go((*SrvReq).process) requires [C19 C12 C13 versionsync] arg0.Tc.Type != 100
 //@   at call((*SrvReq).process) requires [size] 7 <= arg0.Tc.Size && arg0.Tc.Size <= conn.Msize && len(arg0.Rc.Buf) == conn.Msize
 //@   at go((*SrvReq).process) requires [size] 7 <= arg0.Tc.Size && arg0.Tc.Size <= conn.Msize && len(arg0.Rc.Buf) == conn.Msize
 // a recycled reply buffer must not look like the reply of the new request (a request cancelled before it ran is
@@ -1851,6 +1869,8 @@ package go9p
 //@   requires srv != nil && c != nil && srv.Msize >= 24 && srv.Upool != nil && implements(srv.ops, "SrvReqOps") && nolocks() && srv.Maxpend >= 0 && srv.Msize <= 268435455
 //@   at call(net.Conn.RemoteAddr) ensures ret != nil
 //@   at go((*Conn).recv) requires [negotiable] arg0.Msize == srv.Msize && arg0.Dotu == srv.Dotu && arg0.Srv == srv
+// replies of requests still executing when the connection goes away are parked in the reply queue (capacity Maxpend)
+//@   at make(chan *SrvReq) requires [C11 queue] arg0 == srv.Maxpend
 
 // ---------------------------------------------------------------------------
 // C19: lock discipline. Fields reachable from several goroutines and the mutex that guards them;
@@ -1881,6 +1901,7 @@ package go9p
 //@ immutable Pool.low by NewPool
 //@ immutable Pool.high by NewPool
 //@ immutable Clnt.tagpool by NewClnt
+//@ immutable Clnt.Msize by NewClnt Connect
 //@ immutable Clnt.conn by NewClnt
 //@ immutable Req.Clnt by (*Clnt).ReqAlloc (*Tag).reqAlloc
 //@ immutable Req.tag by (*Clnt).ReqAlloc (*Tag).reqAlloc
@@ -1913,6 +1934,46 @@ package go9p
 //@   at send(*) requires [C09 notpooled] false
 //@   at select(*) requires [C09 notpooled] false
 //@   at call((*Pool).Put) requires [C09 notpooled] false
+
+//@ func (*Clnt).FidAlloc(clnt) (fid)
+//@   property C16
+//@   nobody
+//@   trusted allocates a Fid and takes its number from the client's fid pool
+//@   requires clnt != nil
+//@   ensures  fid != nil && fresh(fid)
+//@   assigns  fresh
+
+// C16: a path of any depth (also depth 0, the root itself) is resolved by at least one Twalk, so that the fid
+// returned exists on the server
+//@ func (*Clnt).FWalk(clnt, path) (fid, err)
+//@   property C16
+//@   requires clnt != nil && clnt.Root != nil
+//@   ghost nwalk int = 0
+//@   at call((*Clnt).Rpc) ghost nwalk := nwalk + 1
+//@   at call((*Clnt).FidAlloc) ensures ret != nil && clnt.Root != nil
+//@   at call(strings.Split) ensures len(ret) >= 1 && (forall k int :: 0 <= k && k < len(ret) ==> len(ret[k]) <= 65535)
+//@   at call((*Clnt).Rpc) ensures ret1 == nil ==> ret0 != nil && clnt.Root != nil
+//@   at call((*Clnt).NewFcall) ensures clnt.Root != nil
+//@   ensures  [C16 walked] err == nil ==> fid != nil && nwalk >= 1
+//@   loop 1
+//@     invariant 0 <= i && i <= len(path)
+//@   loop 2
+//@     invariant 0 <= m && m <= i && i <= len(wnames) && len(wnames) >= 1 && newfid != nil && fid != nil
+//@     invariant forall k int :: 0 <= k && k < len(wnames) ==> len(wnames[k]) <= 65535
+//@   loop 3
+//@     invariant newfid != nil && fid != nil && clnt != nil && nwalk >= 0
+//@     invariant forall k int :: 0 <= k && k < len(wnames) ==> len(wnames[k]) <= 65535
+
+// C14: the i/o unit a file is opened with is positive and fits a message (File.Read/Write chunk by it)
+//@ func (*Clnt).Open(clnt, fid, mode) (err)
+//@   property C14
+//@   requires clnt != nil && fid != nil && clnt.Msize >= 25
+//@   ensures  [C14 iounit] err == nil ==> fid.Iounit > 0 && fid.Iounit <= clnt.Msize - 24 && fid.Mode == mode
+
+//@ func (*Clnt).Create(clnt, fid, name, perm, mode, ext) (err)
+//@   property C14
+//@   requires clnt != nil && fid != nil && clnt.Msize >= 25 && len(name) <= 65535 && len(ext) <= 65535
+//@   ensures  [C14 iounit] err == nil ==> fid.Iounit > 0 && fid.Iounit <= clnt.Msize - 24 && fid.Mode == mode
 
 //@ func (*Clnt).ReqFree(clnt, req)
 //@   property C09 C06
@@ -1987,12 +2048,14 @@ package go9p
 //@   at call(Unpack) after dend := off(arg0) + ret1
 //@   at make(*)#1 ghost dobj := 0
 //@   at make(*)#2 ghost dobj := 0
-//@   at call(net.Conn.Read) requires [C13 C09 C19 keepdelivered] obj(arg1) != dobj || off(arg1) >= dend
+//@   at call(net.Conn.Read) requires [C13 C09 C19 C14 keepdelivered] obj(arg1) != dobj || off(arg1) >= dend
 //@   at call(net.Conn.Read) ensures 0 <= ret0 && ret0 <= len(arg1) && forall k int :: 0 <= k && k < ret0 ==> arg1[k] == instream(clnt)[rd + k]
 //@   at call(net.Conn.Read) after rd := rd + ret0
 //@   at call(Unpack) requires [complete] 4 < pos && u32le(buf, 0) <= pos && pos <= len(buf)
 //@   at call(Unpack) requires [stream] forall k int :: 0 <= k && k < pos ==> buf[k] == instream(clnt)[rd - pos + k]
 //@   at send(r.Done)#1 requires [own] r.Rc == fc && fc != nil && r.Tc.Tag == fc.Tag
+// the answered request is unlinked from the pending list: its neighbours (or the list ends) now point past it
+//@   at send(r.Done)#1 requires [C09 C10 unlinked] (r.prev == nil ==> clnt.reqfirst == r.next) && (r.next == nil ==> clnt.reqlast == r.prev) && (r.prev != nil && r.prev != r && r.next != r && r.prev != r.next ==> r.prev.next == r.next) && (r.next != nil && r.prev != r && r.next != r && r.prev != r.next ==> r.next.prev == r.prev)
 //@   at send(r.Done)#1 requires [errmap] r.Tc.Type != 106 ==> (r.Rc.Type == 107 ==> r.Err != nil) && (r.Rc.Type != r.Tc.Type + 1 && r.Rc.Type != 107 ==> r.Err != nil)
 //@   at send(r.Done)#2 requires [failed] r.Err != nil
 //@   loop 1
